@@ -145,6 +145,8 @@ func FocusFor(prop string, tier string) Focus {
 		f.Only20Pct = 60
 	case "C20":
 		f.Boundary = 10
+		f.ModSvcPct = 30
+		mul(2, KWithdraw, KRespond)
 	}
 	return f
 }
@@ -647,6 +649,9 @@ func (g *GenState) GenPrelude(t *rapid.T) []Action {
 		return nil
 	}
 	variant := pick(t, "pre_variant", []string{"standard", "standard", "standard", "refund", "contention", "lastbatch", "standard", "module"})
+	if ms := g.Cfg.ModSvc; ms != nil && ms.Provider != hx(rep(0x5d, 20)) && pct(t, "pre_twins", 50) {
+		return g.twinEarnersPrelude(t)
+	}
 	svc := pick(t, "pre_svc", ServiceNames)
 	acts := []Action{{Kind: KDefine, Signer: pick(t, "pre_author", Signers), Service: svc, Schemas: SchemasOK, Desc: "d"}}
 	n := pick(t, "pre_nprov", []int{1, 2, 3, 2})
@@ -754,6 +759,38 @@ func (g *GenState) GenPrelude(t *rapid.T) []Action {
 			call.Threshold = uint32(pick(t, "pre_threshold", []int{1, len(provs)}))
 		}
 		acts = append(acts, call, endBlock())
+	}
+	return acts
+}
+
+// twinEarnersPrelude: signer 0 (an ordinary provider) and the module-service provider, whose address
+// is a prefix or an extension of signer 0, both earn; then earnings are withdrawn per provider
+// (twice) and per owner. Requests are referred to symbolically (the first request of the history).
+func (g *GenState) twinEarnersPrelude(t *rapid.T) []Action {
+	svc := pick(t, "tw_svc", ServiceNames)
+	s0, consumer := Signers[0], pick(t, "tw_consumer", Signers[1:4])
+	price := pick(t, "tw_price", []int64{10, 100, 1})
+	dep := g.Cfg.MinDepositFor(price) + 1
+	zero := 0
+	valid := RespShapes[0]
+	acts := []Action{
+		{Kind: KDefine, Signer: s0, Service: svc, Schemas: SchemasOK, Desc: "d"},
+		{Kind: KBind, Signer: s0, Service: svc, Provider: s0, Deposit: i64(dep), Pricing: fmt.Sprintf(`{"price":"%dstake"}`, price), QoS: 1, Options: "{}"},
+		{Kind: KCall, Signer: consumer, Service: svc, Providers: []string{s0}, Input: InputOK, FeeCap: i64(1e9), Timeout: pick(t, "tw_timeout", []int64{1, 2})},
+		{Kind: KCall, Signer: consumer, Service: ModSvcName, Providers: []string{g.Cfg.ModSvc.Provider}, Input: InputOK, FeeCap: i64(1e9), Timeout: 1},
+		{Kind: KEndBlock, DeltaNs: 5e9},
+		{Kind: KRespond, Signer: s0, ReqID: hx(rep(0x22, 58)), ReqRef: &zero, Result: valid.Result, Output: valid.Output, OutClass: valid.Class},
+	}
+	order := pick(t, "tw_order", []string{"s0,s0,owner", "mod,s0,s0", "s0,mod,s0", "owner,s0,mod"})
+	for _, who := range strings.Split(order, ",") {
+		switch who {
+		case "s0":
+			acts = append(acts, Action{Kind: KWithdraw, Signer: s0, Provider: s0})
+		case "mod":
+			acts = append(acts, Action{Kind: KWithdraw, Signer: g.Cfg.ModSvc.Owner, Provider: g.Cfg.ModSvc.Provider})
+		case "owner":
+			acts = append(acts, Action{Kind: KWithdraw, Signer: pick(t, "tw_owner", []string{s0, g.Cfg.ModSvc.Owner})})
+		}
 	}
 	return acts
 }
